@@ -1,15 +1,24 @@
 import HydroVerif.Proto
 import HydroVerif.Model.C16
+import HydroVerif.Model.C16Hist
 open HydroVerif HydroVerif.C07 HydroVerif.C16
 
 /-
 requests (floats as 16 hex digits or `nan`, rationals as p/q; G = `nrows ncols xll yll csz`):
   kern  G csz_area [x,y;...]     -> [cells] [weights]          c_intersect on raw points (`nan,nan` = NaN row)
-  isect G Gfine [cells]          -> ok [cells] [weights] rs re cs ce axll ayll anrows ancols [data] | err:noOverlap
+  isect G Gfine [cells]          -> ok [cells] [weights] rs re cs ce axll ayll anrows ancols [data] acsz pnrows pncols pcsz pxll pyll
+                                    | err:noOverlap | err:badBuffer
   vor   G [cells] [x,y;...]      -> ok [weights] | err:noPoints  dist = sqrt(dx*dx+dy*dy)
   kernQ / isectQ / vorQ          the same at exact rationals (vorQ: dist = dx*dx+dy*dy, same arg-min)
-  isectc G Gfine area filled flag -> as isect | err:cellsNone   Catchment.intersect; area / filled = [cells] | none, flag 0|1
+  isectc G Gfine area filled flag -> as isect | err:cellsNone   Catchment.intersect; area / filled = [cells] | none, flag 0|1|d
+                                    (d = the argument `filled` left at its default)
   vorpy G area scalar x | flat [xs] | rows w [r;r;...]  -> ok [weights] | err:notDelineated | err:badShape | err:noPoints | err:badGrid
+  repadd af [n1,n2,...]          -> [repAdd af (n1-1), ...]     the accumulate loop's value for a cell met n times (Float)
+  specQ G Gfine [cells]          -> [cells] [specWeight] specInside specArea sum(w*csz^2)   the property's executable statement
+                                    next to the model's listing (Rat)
+  hist nc ng (Gfine area filled)*nc (G)*ng [pts] op*   -> reply | reply | ...   a history on live objects (`hrun`), ops:
+       sg j G | sf i G | sc i area filled | cc i | cg j | add i k | sub i k | sp [pts] | er | is i j flag | vo i
+       replies: done | rej:<why> | <as isect> | <as vor>, then `final nc ng cats grids [pts]` = the objects at the end
 -/
 
 def optCells? (s : String) : Option (Option (List Int)) :=
@@ -44,7 +53,8 @@ def fmtMatS (rows : List (List String)) : String :=
 
 def fmtArea {β} (fmt : β → String) (a : AreaGrid β) : String :=
   s!"ok {fmtIntList a.keys} {fmtList (a.weights.map fmt)} {a.rowStart} {a.rowEnd} {a.colStart} {a.colEnd} " ++
-  s!"{fmt a.xll} {fmt a.yll} {a.nrows} {a.ncols} {fmtMatS (a.data.map fun r => r.map fmt)}"
+  s!"{fmt a.xll} {fmt a.yll} {a.nrows} {a.ncols} {fmtMatS (a.data.map fun r => r.map fmt)} " ++
+  s!"{fmt a.csz} {a.parent.nrows} {a.parent.ncols} {fmt a.parent.csz} {fmt a.parent.xll} {fmt a.parent.yll}"
 
 def errName : C16.Err → String
   | .noOverlap => "err:noOverlap"
@@ -53,12 +63,134 @@ def errName : C16.Err → String
   | .notDelineated => "err:notDelineated"
   | .cellsNone => "err:cellsNone"
   | .badShape => "err:badShape"
+  | .badBuffer => "err:badBuffer"
+  | .bufferOverflow => "err:bufferOverflow"
+  | .badData => "err:badData"
 
 def distF (dx dy : Float) : Float := Float.sqrt (dx * dx + dy * dy)
 def distQ (dx dy : Rat) : Rat := dx * dx + dy * dy
 
+/-! ### histories -/
+
+def parseCats : Nat → List String → Option (List (Catchment Float) × List String)
+  | 0, toks => some ([], toks)
+  | n + 1, nr :: nc :: xll :: yll :: csz :: area :: filled :: rest =>
+    match geomF? nr nc xll yll csz, optCells? area, optCells? filled, parseCats n rest with
+    | some g, some a, some f, some (cs, rest') => some (⟨g, a, f⟩ :: cs, rest')
+    | _, _, _, _ => none
+  | _, _ => none
+
+def parseGrids : Nat → List String → Option (List (Geom Float) × List String)
+  | 0, toks => some ([], toks)
+  | n + 1, nr :: nc :: xll :: yll :: csz :: rest =>
+    match geomF? nr nc xll yll csz, parseGrids n rest with
+    | some g, some (gs, rest') => some (g :: gs, rest')
+    | _, _ => none
+  | _, _ => none
+
+def parseOps : List String → Option (List (Op Float))
+  | [] => some []
+  | "sg" :: j :: nr :: nc :: xll :: yll :: csz :: rest =>
+    match j.toNat?, geomF? nr nc xll yll csz, parseOps rest with
+    | some j, some g, some ops => some (.setGrid j g :: ops)
+    | _, _, _ => none
+  | "sf" :: i :: nr :: nc :: xll :: yll :: csz :: rest =>
+    match i.toNat?, geomF? nr nc xll yll csz, parseOps rest with
+    | some i, some g, some ops => some (.setFlowdir i g :: ops)
+    | _, _, _ => none
+  | "sc" :: i :: area :: filled :: rest =>
+    match i.toNat?, optCells? area, optCells? filled, parseOps rest with
+    | some i, some a, some f, some ops => some (.setCells i a f :: ops)
+    | _, _, _, _ => none
+  | "cc" :: i :: rest =>
+    match i.toNat?, parseOps rest with
+    | some i, some ops => some (.cloneCat i :: ops)
+    | _, _ => none
+  | "cg" :: j :: rest =>
+    match j.toNat?, parseOps rest with
+    | some j, some ops => some (.cloneGrid j :: ops)
+    | _, _ => none
+  | "add" :: i :: k :: rest =>
+    match i.toNat?, k.toNat?, parseOps rest with
+    | some i, some k, some ops => some (.addCat i k :: ops)
+    | _, _, _ => none
+  | "sub" :: i :: k :: rest =>
+    match i.toNat?, k.toNat?, parseOps rest with
+    | some i, some k, some ops => some (.subCat i k :: ops)
+    | _, _, _ => none
+  | "sp" :: pts :: rest =>
+    match pairs? floatTok? pts, parseOps rest with
+    | some ps, some ops => some (.setPts ps :: ops)
+    | _, _ => none
+  | "er" :: rest => (parseOps rest).map (Op.editReturned :: ·)
+  | "is" :: i :: j :: flag :: rest =>
+    match i.toNat?, j.toNat?, parseOps rest with
+    | some i, some j, some ops => some (.intersect i j (flag = "1") :: ops)
+    | _, _, _ => none
+  | "vo" :: i :: rest =>
+    match i.toNat?, parseOps rest with
+    | some i, some ops => some (.voronoi i :: ops)
+    | _, _ => none
+  | _ => none
+
+def fmtReply : Reply Float → String
+  | .done => "done"
+  | .rejected .noSuchObject => "rej:noSuchObject"
+  | .rejected .notDelineated => "rej:notDelineated"
+  | .isect (.ok a) => fmtArea hexOfFloat a
+  | .isect (.error e) => errName e
+  | .vor (.ok w) => fmtOptW w
+  | .vor (.error e) => errName e
+
+def fmtOptCells : Option (List Int) → String
+  | none => "none"
+  | some l => fmtIntList l
+
+def fmtGeomF (g : Geom Float) : String :=
+  s!"{g.nrows} {g.ncols} {hexOfFloat g.xll} {hexOfFloat g.yll} {hexOfFloat g.csz}"
+
+def fmtWorld (w : World Float) : String :=
+  s!"{w.cats.length} {w.grids.length} " ++
+  " ".intercalate ((w.cats.map fun c => s!"{fmtGeomF c.fine} {fmtOptCells c.area} {fmtOptCells c.filled}") ++
+    w.grids.map fmtGeomF ++ [fmtMatS (w.pts.map fun p => [hexOfFloat p.1, hexOfFloat p.2])])
+
+def handleHist (toks : List String) : String :=
+  match toks with
+  | nc :: ng :: rest =>
+    match nc.toNat?, ng.toNat? with
+    | some nc, some ng =>
+      match parseCats nc rest with
+      | some (cats, rest1) =>
+        match parseGrids ng rest1 with
+        | some (grids, pts :: rest2) =>
+          match pairs? floatTok? pts, parseOps rest2 with
+          | some ps, some ops =>
+            -- the objects at the end, computed from the mutators alone (`hfinal_eq_filter`)
+            let wf := hfinal distF ⟨cats, grids, ps⟩ (ops.filter Op.isMutator)
+            " | ".intercalate ((hrun distF ⟨cats, grids, ps⟩ ops).map fmtReply ++ ["final " ++ fmtWorld wf])
+          | _, _ => "bad-op"
+        | _ => "bad-op"
+      | none => "bad-op"
+    | _, _ => "bad-op"
+  | _ => "bad-op"
+
 def handle (toks : List String) : String :=
   match toks with
+  | "hist" :: rest => handleHist rest
+  | ["repadd", af, ns] =>
+    match floatTok? af, parseNatList? ns with
+    | some af, some ns => fmtFloatList (ns.map fun n => repAdd af (n - 1))
+    | _, _ => "bad-op"
+  | ["specQ", nr, nc, xll, yll, csz, fnr, fnc, fxll, fyll, fcsz, cells] =>
+    match geomQ? nr nc xll yll csz, geomQ? fnr fnc fxll fyll fcsz, parseIntList? cells with
+    | some g, some f, some cs =>
+      if g.csz = 0 then "err:csz0" else
+      let kws := cIntersect g f.csz (cs.map (cell2coord f))
+      let ks := kws.map (·.1)
+      let lhs := (kws.map fun kw => kw.2 * (g.csz * g.csz)).foldl (· + ·) 0
+      s!"{fmtIntList ks} {fmtRatList (ks.map fun k => specWeight g f cs k)} {specInside g f cs} " ++
+      s!"{fmtRat (specArea g f cs)} {fmtRat lhs}"
+    | _, _, _ => "bad-op"
   | ["kern", nr, nc, xll, yll, csz, ca, pts] =>
     match geomF? nr nc xll yll csz, floatTok? ca, pairs? floatTok? pts with
     | some g, some ca, some ps =>
@@ -104,7 +236,7 @@ def handle (toks : List String) : String :=
   | ["isectc", nr, nc, xll, yll, csz, fnr, fnc, fxll, fyll, fcsz, area, filled, flag] =>
     match geomF? nr nc xll yll csz, geomF? fnr fnc fxll fyll fcsz, optCells? area, optCells? filled with
     | some g, some f, some a, some fl =>
-      match Catchment.intersect ⟨f, a, fl⟩ g (flag = "1") with
+      match (if flag = "d" then Catchment.intersectDefault ⟨f, a, fl⟩ g else Catchment.intersect ⟨f, a, fl⟩ g (flag = "1")) with
       | .ok a => fmtArea hexOfFloat a
       | .error e => errName e
     | _, _, _, _ => "bad-op"
